@@ -30,17 +30,19 @@ Definition lower_ascii (a : ascii) : ascii :=
   if ((65 <=? n) && (n <=? 90))%nat then ascii_of_nat (n + 32) else a.
 Fixpoint lower (s : string) : string :=
   match s with EmptyString => EmptyString | String a r => String (lower_ascii a) (lower r) end.
-Fixpoint is_prefix (p s : string) : bool :=
-  match p, s with
-  | EmptyString, _ => true
-  | String a p', String b s' => Ascii.eqb a b && is_prefix p' s'
-  | _, EmptyString => false
+(** [filepath.suffix.lower() == ".gwl"]: the part of the name from its last dot on, which must not be the
+    first character of the name (a leading dot starts a hidden file, not an extension) *)
+Fixpoint last_dot_suffix (s : string) (cur : option string) : option string :=
+  match s with
+  | EmptyString => cur
+  | String a r => if Ascii.eqb a "."%char then last_dot_suffix r (Some s) else last_dot_suffix r cur
   end.
-Fixpoint contains_sub (p s : string) : bool :=
-  is_prefix p s || match s with EmptyString => false | String _ r => contains_sub p r end.
-
-(** [".gwl" in filepath.name.lower()] (ASCII file names) *)
-Definition name_ok (filename : string) : bool := contains_sub ".gwl" (lower filename).
+Definition suffix (name : string) : string :=
+  match name with
+  | EmptyString => EmptyString
+  | String a r => match last_dot_suffix r None with Some x => x | None => EmptyString end
+  end.
+Definition name_ok (filename : string) : bool := String.eqb (lower (suffix filename)) ".gwl".
 
 (** [save]: file content afterwards, or refusal leaving the old content *)
 Definition save (filename : string) (old : option string) (recs : list string) : option string * option err :=
